@@ -121,6 +121,8 @@ func runC10(c *an.Ctx) {
 	}
 	checkServerStartOrder(c, "C10.e")
 	checkDecoderSumsGuarded(c, "C10.j")
+	checkDecoderCopiesBytes(c, "C10.j")
+	checkInstrumentsInitialised(c, "C10.k", "p2p", "serverMetrics", "newServerMetrics")
 	// the Store methods the server answers from are part of what "the server never panics" rests on
 	// when the server is given the module's own Store: they are put under the sweeps that follow every
 	// rule (pointer loads dereferenced under a nil test, conversions, derived contexts)
